@@ -485,7 +485,48 @@ void harness(void) { VP_INIT; vp_mkpool();
                    note='whole function; vectors offered <= declared sizes are precondition checks of the handler stubs at the real call sites')
 
 
+_drv = [None]
+
+
+def replay(lead, inputs, obs):
+    """Contract counterexamples start from arbitrary stdio results, not from a file: the native replay runs the real
+    mp::ReadSOLFile under ASan/UBSan on the recorded hostile inputs in replay/inputs/*.sol with several declared sizes
+    and handler behaviours."""
+    import glob
+    import os
+    import subprocess
+    from vp.run import BUILD, VERIF
+    repo = os.environ.get('VP_REPO', '/repo')
+    if _drv[0] is None:
+        out = os.path.join(BUILD, 'replay', 'c14_replay')
+        os.makedirs(os.path.dirname(out), exist_ok=True)
+        cmd = ['g++', '-std=c++17', '-g', '-O0', '-w', '-DNDEBUG', '-fsanitize=address,undefined,float-cast-overflow', '-fno-sanitize-recover=all',
+               '-I', repo + '/nl-writer2/include', '-I', repo + '/include', os.path.join(VERIF, 'replay', 'c14_replay.cc'),
+               repo + '/nl-writer2/src/nl-utils.cc', '-o', out]
+        p = subprocess.run(cmd, capture_output=True, text=True)
+        if p.returncode != 0:
+            return False, 'replay driver build failed: ' + p.stderr[-1500:], ' '.join(cmd)
+        _drv[0] = out
+    tried = set()
+    for f in sorted(glob.glob(os.path.join(VERIF, 'replay', 'inputs', '*.sol'))):
+        for nv, nc in ((0, 0), (3, 2), (2, 1)):
+            for mode in ('all', 'some'):
+                args = [_drv[0], f, str(nv), str(nc), mode]
+                p = subprocess.run(args, capture_output=True, text=True, timeout=120)
+                tried.add(os.path.basename(f))
+                if p.returncode != 0:
+                    return True, (p.stdout + p.stderr)[-2500:], ' '.join(args)
+    return False, 'not reproduced by the recorded inputs %s' % sorted(tried), ''
+
+
 def harnesses(tier, seed):
+    hs = _harnesses(tier, seed)
+    for h in hs:
+        h.replay = replay
+    return hs
+
+
+def _harnesses(tier, seed):
     hs = [h_decstring(), h_lget()]
     hs += [h_read(k) for k in KINDS]
     hs += [h_readnext(k) for k in KINDS]
